@@ -126,8 +126,8 @@ def strip_contracts(sc):
         t.invariants[:] = []
 
 
-def run_scenario(rng, chart, spec, cases, stats, chart_key):
-    """Drive one scenario; append captured cases."""
+def run_scenario(rng, chart, spec, cases, stats, chart_key, script=None):
+    """Drive one scenario; append captured cases.  With `script` the operations are given (corpus), else random."""
     props = []
     for _ in range(spec.props):
         props.append(count_prop_chart(rng.randint(1, 40), rng) if rng.random() < 0.6 else kind_prop_chart(rng))
@@ -152,6 +152,30 @@ def run_scenario(rng, chart, spec, cases, stats, chart_key):
                                                            for a in ('on_entry', 'on_exit')]
     templates = sorted({(m.group(1), int(m.group(2))) for c in code for m in re.finditer(r"send\('(\w+)', delay=(\d+)\)", c)})
     dead = False
+    if script is not None:
+        from sismic.model import Event
+        for op in script:
+            if dead:
+                break
+            if op[0] == 'clock':
+                sc.clock.time += op[1]
+                continue
+            if op[0] == 'bits':
+                sc.interp._evaluator._context['g'] = op[1]
+                continue
+            if op[0] == 'cbits':
+                sc.interp._evaluator._context['c'] = op[1]
+                continue
+            case = sc.step_case(('queue', Event(op[1], **dict(op[2]))) if op[0] == 'queue' else ('exec',))
+            case['chart_key'] = chart_key
+            case['scenario'] = sc
+            case['prop_charts'] = {id(pi._statechart): pi._statechart for pi in sc.props.values()}
+            cases.append(case)
+            if case['out'][0] == 'err':
+                stats['errors'][case['out'][1][0]] = stats['errors'].get(case['out'][1][0], 0) + 1
+                if case['out'][1][0] in ('EContract', 'EProperty', 'ECode', 'EKey', 'EAssert', 'EOther'):
+                    dead = True
+        return
     for k in range(n):
         r = rng.random()
         if dead:
@@ -291,6 +315,21 @@ def generate(prop, tier, seed, profile, spec, n_quick, n_thorough, chart_hook=No
     stats = dict(errors={}, charts=0)
     k = 0
     t0 = time.time()
+    # the corpus first: hand-shaped charts with scripted inputs (shapes random generation reaches too rarely)
+    import corpus_interp
+    for entry in corpus_interp.entries():
+        try:
+            chart, script = corpus_interp.build(entry)
+        except Exception as e:  # noqa
+            stats.setdefault('corpus_errors', []).append('%s: %r' % (entry[0], e))
+            continue
+        if spec.strip_contracts:
+            strip_contracts(chart)
+        key = 'c%d' % k
+        k += 1
+        charts[key] = sx.chart_value(chart)
+        run_scenario(rng, chart, spec, cases, stats, key, script=script)
+    stats['corpus_cases'] = len(cases)
     while len(cases) < target:
         chart = genchart.valid_chart(rng, profile)
         if chart_hook:
